@@ -86,9 +86,17 @@ def check(ctx, run):
                 continue
             for branch in ("vectorised", "recurrent"):
                 combos.append(("EntropicRiskMeasure", CRITERIA["EntropicRiskMeasure"], branch, None, (cls, fattrs)))
+    combos.append(("EntropicRiskMeasure", CRITERIA["EntropicRiskMeasure"], "recurrent", None, ("__module_output__", None)))
     for cname, attrs, branch, feats, special in combos:
         if True:
-            if special is None:
+            if special is not None and special[0] == "__module_output__":
+                # a derived feature: ModuleOutput(user module, [moneyness, prev_hedge]) - the module's inputs carry the graph of the previous hedge
+                d0 = W.option()
+                inner = Obj("pfhedge.features.container.FeatureList", "mo_inputs", {"features": [W.feature("Moneyness", derivative=d0, log=False), W.feature("PrevHedge", derivative=d0)]})
+                mo = Obj("pfhedge.features.container.ModuleOutput", "mo", {"inputs": inner, "module": Sym("feature_module", ("callable",)), "derivative": d0})
+                fobjs = [mo]
+                shared = d0
+            elif special is None:
                 fobjs = [W.feature(c, **({"log": False} if c == "Moneyness" else {})) for c in feats]
                 shared = None
             else:
